@@ -18,7 +18,7 @@ def main():
     mf = os.path.join(dst, "meta.json")
     m = json.load(open(mf))
     m.update({"id": cid, "wave": int(wave), "property": prop,
-              "origin": "fresh sub-agent given only the property record, its own worktree, one-line summaries of the 22 earlier changes for this property (to be different in kind) and an in-memory stand-in for the HDF5 binding so that io/ and cmd/ow-sim compile"})
+              "origin": "fresh sub-agent given only the property record, its own worktree, one-line summaries of the earlier changes for this property (to be different in kind) and an in-memory stand-in for the HDF5 binding so that io/ and cmd/ow-sim compile"})
     conf = "/tmp/conf-" + cid
     env = dict(os.environ, CONF_DIR=conf)
     r = subprocess.run([sys.executable, V + "/ctl/confirm_seeds.py", V + "/seeded", cid], env=env, capture_output=True, text=True)
